@@ -569,19 +569,31 @@ fn c10_case(w: &mut World, cfg: &RunCfg, r: usize, base: &Items, truth: &BTreeMa
 // ------------------------------------------------------------------------------------ C18
 
 fn semantic_trace(cfg: &RunCfg, ops: &[Op]) -> Option<Vec<Value>> {
+    if cfg!(feature = "sched") {
+        let (c, o) = (cfg.clone(), ops.to_vec());
+        return match crate::sched::in_shuttle(crate::runner::sched_seed(cfg), cfg.pool, move || semantic_trace_inner(&c, &o)) {
+            Ok(t) => t,
+            Err(c) => Some(vec![json!(format!("runner: {}", c.class()))]),
+        };
+    }
+    semantic_trace_inner(cfg, ops)
+}
+
+fn semantic_trace_inner(cfg: &RunCfg, ops: &[Op]) -> Option<Vec<Value>> {
     let mut c = cfg.clone();
     c.prop = "-".to_string();
     let mut w = World::new(c).ok()?;
     let mut out = vec![];
     for op in ops {
-        if w.exec(op).is_err() {
-            out.push(json!("stopped"));
+        if let Err(e) = w.exec(op) {
+            out.push(json!(format!("stopped: {:?}", e)));
             return Some(out);
         }
         let mut step = vec![];
         for r in 0..w.replicas.len() {
             match w.digest_of(r) {
                 Ok(d) => step.push(semantic(&d)),
+                Err(Stop::Inconclusive(e)) => step.push(json!(format!("abort: {}", e))),
                 Err(_) => step.push(json!("abort")),
             }
         }
@@ -636,6 +648,15 @@ fn c18(w: &mut World, ops: &[Op]) -> Res {
         c.cache_ad = *rng.pick(&caps);
         c.cache_data = *rng.pick(&caps);
         variants.push(("everything varied".to_string(), c));
+    }
+    if cfg!(feature = "sched") {
+        // worker-pool sizes 1..16 and other schedules (the schedule seed derives from order_seed)
+        for k in [1usize, 2, 3, 4, 8, 16] {
+            let mut c = cfg.clone();
+            c.pool = k;
+            c.order_seed = rng.next();
+            variants.push((format!("pool size {}", k), c));
+        }
     }
     for (name, c) in variants {
         w.bump("enum.config_variants");
